@@ -18,7 +18,7 @@ TECHNIQUE = {
     "C14": RM + "conservation check of stats() against the interposed-sendto log at quiescent points, all accept/refuse patterns enumerated, concurrent emitters, through the queuing wrapper",
     "C15": RM + "counter invariants at every rest point of enumerated histories, sampler thread under concurrency, forced windows via schedule hooks (consumer overtakes producer bookkeeping)",
     "C16": RM + "fault injection: all ok/err patterns enumerated with and without handler; log checker (exactly one handler call, same error, same thread, before next delivery)",
-    "C17": RM + "differential monitor: macro vs explicit chain on the same global client, argument-evaluation counters, one process per global configuration",
+    "C17": RM + "differential monitor: macro vs explicit chain on the same global client, argument-evaluation counters, one process per global configuration; Miri (many seeds) on a plain macro program as independent observer of the set-once path",
     "C18": RM + "controlled scheduler enumerating all interleavings of real threads through a tracing shim + online vector-clock (happens-before) race check + set-once value oracle; Miri (data races, weak memory, UB) and ThreadSanitizer as independent observers",
     "C19": RM + "model-based trace checker (rule F4: a write happens only when it must, and then carries everything pending) over enumerated and random histories; thorough adds a coverage-guided session (libFuzzer picks the bytes that drive the same generator, the same monitor judges every execution)",
     "C20": RM + "hostile-input exploration under catch_unwind + panic hook + sub-process exit status, overflow checks proven on by a canary; thorough adds a coverage-guided session (libFuzzer picks the bytes that drive the same generator, the same monitor judges every execution)",
@@ -39,6 +39,8 @@ ENGINES = [
      "kind_free_text": "multi-threaded stress through one shared client into buffered spy / Unix / UDP sinks; datagram stream checker"},
     {"name": "macro_driver", "path": "harness/src/bin/macro_driver.rs", "serves_properties": ["C17"],
      "kind_free_text": "one process per global-client configuration; macro vs explicit chain differential"},
+    {"name": "macro_miri", "path": "harness/src/bin/macro_miri.rs", "serves_properties": ["C17"],
+     "kind_free_text": "plain program (global client set, macros from several threads, lines compared with explicit chains) run under Miri with many seeds"},
     {"name": "holder_driver", "path": "harness/src/bin/holder_driver.rs", "serves_properties": ["C18"],
      "kind_free_text": "token-passing scheduler over hook H1, DFS over all interleavings, vector-clock race check, value oracle"},
     {"name": "holder_stress", "path": "harness/src/bin/holder_stress.rs", "serves_properties": ["C18"],
